@@ -1,0 +1,50 @@
+//go:build verif
+// +build verif
+
+// Machine-checked contracts for package ircomp (comment-only; read by /verif/govc).
+
+package ircomp
+
+// C04 (implementation limits are reported, never silently exceeded): register
+// numbers are encoded on 8 bits in the bytecode.  The allocator never hands out
+// an index that does not fit, for value registers and for cell registers alike:
+// both pools stay at 255 entries at most, and running out is a compilation
+// panic (which CompileQueue turns into a compile error).
+//@ func allocReg
+//@   prop C04
+//@   arith int
+//@   conversions lossless
+//@   requires len(regs) <= 255 && forall(j, 0, len(regs), regs[j] >= 0)
+//@   modifies all(regs)
+//@   exits any when len(regs) == 255 && forall(j, 0, len(regs), regs[j] != 0)
+//@   ensures len(result0) <= 255 && len(result0) >= len(regs) && result1 < len(result0) && result0[result1] == 0
+//@   ensures forall(j, 0, len(regs), result0[j] == regs[j])
+//@   loop 1: invariant -1 <= rangeindex && rangeindex < len(regs) && forall(j, 0, rangeindex + 1, regs[j] != 0)
+
+//@ func (*regAllocator).codeReg
+//@   prop C04
+//@   arith int
+//@   norte
+//@   nocover
+//@   requires a != nil && len(a.regs) <= 255 && len(a.cells) <= 255 && forall(j, 0, len(a.regs), a.regs[j] >= 0) && forall(j, 0, len(a.cells), a.cells[j] >= 0)
+//@   modifies everything()
+//@   exits any
+//@   ensures len(a.regs) <= 255 && len(a.cells) <= 255
+
+// Remaining non-compilation panics in the package are consistency checks on
+// data produced by the compiler itself (an operator the parser cannot
+// produce; the constant queue numbering): assumed unreachable, one site each.
+//@ func (instrCompiler).ProcessCombineInstr
+//@   prop C04
+//@   effectsonly
+//@   effects internal-assertion 1
+
+//@ func (instrCompiler).ProcessTransformInstr
+//@   prop C04
+//@   effectsonly
+//@   effects internal-assertion 1
+
+//@ func (*ConstantCompiler).CompileQueue
+//@   prop C04
+//@   effectsonly
+//@   effects internal-assertion 1
